@@ -27,6 +27,7 @@ var (
 	flagLazy      = flag.Bool("lazy", false, "debug: lazy branching for -sym")
 	flagProfile   = flag.String("cpuprofile", "", "debug: write CPU profile")
 	flagConform   = flag.Bool("conform", false, "run the encoder conformance corpus only")
+	flagOnly      = flag.String("only", "", "debug: run only the units whose entry|args text contains this")
 	flagBudget    = flag.Int("budget", 0, "debug: override the wall budget (minutes)")
 	flagSolverLog = flag.String("solverlog", "", "debug: write solver transcript of worker 0 to this file")
 )
